@@ -520,6 +520,11 @@ class Interp:
                 elif a.get("v") == "int" and b.get("v") == "int" and e["op"] in ("+", "-", "*"):
                     n = {"+": a["n"] + b["n"], "-": a["n"] - b["n"], "*": a["n"] * b["n"]}[e["op"]]
                     out.append((s2, {"v": "int", "n": n, "src": src(e)}))
+                elif a.get("v") == "int" and b.get("v") == "int" and (e["op"] in ("|", "&", "^") or (e["op"] in ("<<", ">>") and 0 <= b["n"] < 128) or (e["op"] in ("/", "%") and b["n"] > 0 and a["n"] >= 0)):
+                    # constant expressions: rustc rejects an overflowing or out-of-range constant operation at compile time
+                    x, y = a["n"], b["n"]
+                    n = {"|": x | y, "&": x & y, "^": x ^ y, "<<": x << y, ">>": x >> y, "/": x // y, "%": x % y}[e["op"]]
+                    out.append((s2, {"v": "int", "n": n, "src": src(e)}))
                 elif a.get("v") == "flags" and b.get("v") == "flags" and a["ty"] == b["ty"] and e["op"] in ("|", "&", "^", "-"):
                     n = {"|": a["bits"] | b["bits"], "&": a["bits"] & b["bits"], "^": a["bits"] ^ b["bits"], "-": a["bits"] & ~b["bits"]}[e["op"]]
                     out.append((s2, {"v": "flags", "ty": a["ty"], "bits": n, "src": src(e)}))
@@ -1758,10 +1763,22 @@ class Interp:
                     if isinstance(v, dict) and v.get("v") == "hole" and not v.get("ty"):
                         v = dict(v, ty=ty.lstrip("&"))
                     s1.env[n] = v
+            # a text the caller handed over by `&mut` (a String being built, a formatter modelled as one): what the callee
+            # appended is in the caller's variable afterwards
+            byref = []
+            for (n, ty), a_ in zip(fn.params, (callnode.get("args") or []) if isinstance(callnode, dict) and callnode.get("k") == "call" else []):
+                a0 = a_
+                while isinstance(a0, dict) and a0.get("k") in ("ref", "paren"):
+                    a0 = a0["e"]
+                if n and ty.startswith("&mut") and isinstance(a0, dict) and a0.get("k") == "path" and len(a0["segs"]) == 1 and is_str(saved_env.get(a0["segs"][0])):
+                    byref.append((n, a0["segs"][0]))
             out = []
             for s2, v in self.exec_block(fn.body["stmts"], s1):
                 rv = s2.ret if s2.ret is not None else v
+                wb = [(cv, s2.env.get(n)) for n, cv in byref if is_str(s2.env.get(n))]
                 s2.env = dict(saved_env)
+                for cv, val in wb:
+                    s2.env[cv] = val
                 s2.ret = saved_ret
                 if isinstance(rv, dict) and rv.get("v") == "panic":
                     s2.ret = rv
@@ -2647,6 +2664,9 @@ def top_forms(text):
 
 
 # ------------------------------------------------------------------ canonical (rename-independent) hole names
+COMMUTATIVE = {"||", "&&", "|", "&", "^", "==", "!=", "+", "*"}
+
+
 def canon(h):
     if isinstance(h, dict) and h.get("spec") and h.get("v") != "hole":
         return canon({k: x for k, x in h.items() if k != "spec"}) + ":" + h["spec"]
@@ -2720,7 +2740,11 @@ def canon(h):
     if k == "expr":
         ops = h.get("operands", [])
         if len(ops) == 2:
-            return "(%s %s %s)%s" % (canon(ops[0]), h.get("op"), canon(ops[1]), spec)
+            a_, b_ = canon(ops[0]), canon(ops[1])
+            if h.get("op") in COMMUTATIVE and b_ < a_:
+                # `x || y` and `y || x` (operands are values: what evaluating them *does* is recorded as effects, in order)
+                a_, b_ = b_, a_
+            return "(%s %s %s)%s" % (a_, h.get("op"), b_, spec)
         return "(%s%s)%s" % (h.get("op", ""), canon(ops[0]) if ops else "?", spec)
     if k == "unwrap":
         return "%s.unwrap()%s" % (canon(h.get("of")), spec)
